@@ -25,6 +25,7 @@ type LoopSpec struct {
 	Unroll     int
 	Invariants []Clause
 	Decreases  *Clause
+	Steps      []Clause // two-state clauses checked at every way back to the loop head; iter(e) is e at the start of the iteration
 }
 
 type AnchorClause struct {
@@ -317,6 +318,10 @@ func ParseContracts(files map[string]string) (*ContractSet, error) {
 					lab, ex := cutLabel(r3)
 					lp.Invariants = append(lp.Invariants, Clause{lab, ex, ln, file})
 					last = &lp.Invariants[len(lp.Invariants)-1].Expr
+				case "step":
+					lab, ex := cutLabel(r3)
+					lp.Steps = append(lp.Steps, Clause{lab, ex, ln, file})
+					last = &lp.Steps[len(lp.Steps)-1].Expr
 				case "decreases":
 					lp.Decreases = &Clause{"dec", r3, ln, file}
 					last = &lp.Decreases.Expr
